@@ -1320,6 +1320,45 @@ fn gen_c10(lvl: u8) -> Vec<Scenario> {
             }
         }
     }
+    // the executor is busy while the reply arrives and the deadline passes: when the caller is finally polled it
+    // finds both its reply and an expired timer, and the reply wins (several tokio rng seeds: an unbiased select!
+    // between the two would pick by chance)
+    for timed in [SendKind::AskTO(10), SendKind::TellTO(10)] {
+        for erased in [false, true] {
+            for seed in 0..6u64 {
+                let mut ids = Ids(0);
+                let mut clients = Vec::new();
+                let mut steps = vec![];
+                let mut m = MsgSpec::m1(ids.next());
+                m.entry_yield = false;
+                if timed.is_ask() {
+                    m.steps = vec![Step::Sleep(5)];
+                } else {
+                    // the tell waits for a slot that frees at t=5
+                    let mut mb = MsgSpec::m1(ids.next()).steps(vec![Step::Sleep(5)]);
+                    mb.entry_yield = false;
+                    let mut filler = MsgSpec::quick(ids.next());
+                    filler.entry_yield = false;
+                    clients.push(Program { slots: vec![(0, 0)], steps: vec![send(SendKind::Tell, 0, mb), send(SendKind::Tell, 0, filler)], auto_yield: false, free: false });
+                    steps.push(Step::Yield);
+                }
+                let slot = if erased {
+                    steps.push(Step::Erase { from: 0, to: 1, kind: if timed.is_ask() { EraseKind::Ask } else { EraseKind::Tell }, owned: false });
+                    steps.push(Step::Fuse);
+                    1
+                } else {
+                    0
+                };
+                steps.push(send(timed, slot, m));
+                clients.push(Program::new(vec![(0, 0)], steps));
+                clients.push(Program::new(vec![], vec![Step::Sleep(5), Step::Stall(10)]));
+                n += 1;
+                let mut sc = scn(format!("c10-{n}-stalled-executor-{timed:?}-erased{erased}-seed{seed}"), vec![ActorSpec::plain(1)], clients, &["stall"]);
+                sc.seed = seed;
+                out.push(sc);
+            }
+        }
+    }
     // two concurrent timed operations
     for (t1, t2) in [(10u32, 20u32), (10, 10), (20, 10)] {
         let mut ids = Ids(0);
